@@ -752,9 +752,12 @@ def lockstep(ops, ctx, nproj=2, check_handles=True, stop_at_first=True):
     doc_touched = set()  # handles whose document object has been created
     doc_tainted = set()  # ... and whose job directory vanished and was re-created meanwhile (F-5c)
     records, failures = [], []
+    ever = [set() for _ in range(nproj)]   # ids that existed in project p at some point of the history
     prev_obs = rw.observe()
     try:
         for i, op in enumerate(ops):
+            for p_ in range(nproj):
+                ever[p_] |= set(pm.projects[p_])
             if not _valid(op, pm):
                 records.append({"op": op, "skipped": "undefined-handle"})
                 continue
@@ -812,9 +815,20 @@ def lockstep(ops, ctx, nproj=2, check_handles=True, stop_at_first=True):
             # reference result
             pm_before = copy.deepcopy(pm.projects)
             model = pm.apply(op)
+            for p_ in range(nproj):
+                ever[p_] |= set(pm_before[p_])
+            if k in ("spset", "spdel", "spnest", "spassign", "update") and op[1] in pm.h:
+                # a state point assigned through a handle is registered in the session cache under its id even
+                # if the job is not initialised (the cache is a superset of the jobs the session has dealt with)
+                ever[pm.h[op[1]]["p"]].add(ref_id(pm.h[op[1]]["sp"]))
+                if k in ("spassign", "update"):
+                    want_ = copy.deepcopy(op[2]) if k == "spassign" else None
+                    if want_ is not None:
+                        ever[pm.h[op[1]]["p"]].add(ref_id(want_))
             m_first = model
-            if k == "openid" and real.startswith("ok") and model == "KeyError":
-                # documented: the session cache may still know the state point of a removed job
+            if k == "openid" and real.startswith("ok") and model == "KeyError" and rw.h[op[1]].id in ever[op[2]]:
+                # documented: the session cache may still know the state point of a REMOVED job (one that
+                # existed in this project earlier in the history) - never that of a job that was only opened
                 j = rw.h[op[1]]
                 rw.lazy.discard(op[1])
                 sp = plain(j.statepoint())
